@@ -665,6 +665,8 @@ def c15(run, op, ctx, before, after, changed):
             default = c.name if t == dav.P_DISPLAYNAME else None
             if st == 200 and old is not None and got == old and got != default:
                 run.v("C15", "C15.removed-value-still-there", "%s %s: remove acknowledged but %r still returned" % (path, t, got), prop_tag=t, backend=c.backend)
+            elif st == 200 and got not in (None, "", default):
+                run.v("C15", "C15.value-after-remove", "%s %s: remove acknowledged, PROPFIND now returns %r (was %r)" % (path, t, got, old), prop_tag=t, backend=c.backend)
     if op["op"] == "proppatch" and ctx.get("status") == 207:
         others = [p for p in changed if p != ctx["rel"]]
         if others:
